@@ -102,15 +102,40 @@ def half_len(W):
 
 def warmups():
     op = st.fixed_dictionaries({
-        "m": st.sampled_from(["freq", "half", "trunc", "imp", "freq", "half"]),
+        "m": st.sampled_from(["freq", "half", "trunc", "imp", "freq", "half", "other"]),
         "filt": st.sampled_from(["same", "same", "same", 0, 1, 2]),
         "w": st.sampled_from(["same", "same", "2W-2", "2W-1", "half_len", "W+1", "W-1", 7, 12, 64]),
     })
     return st.one_of(st.just([]), st.lists(op, min_size=1, max_size=4))
 
 
+def _other_instance(bank, W):
+    """Another bank object of the same class with different parameters, built and queried first: state must
+    be per instance, never shared through the class or the module."""
+    from pydrobert.speech import filters, scales
+
+    cls = type(bank)
+    rate = bank.sampling_rate
+    kw = dict(num_filts=bank.num_filts + 2, low_hz=max(1.0, rate / 50.0), high_hz=rate // 2 - max(1, rate // 40), sampling_rate=rate)
+    try:
+        other = cls(**kw) if cls is filters.Fbank else cls(scales.LinearScaling(0.0), **kw)
+    except Exception:  # noqa - the judged bank is what the clause is about
+        return
+    for j in (0, other.num_filts - 1):
+        other.get_frequency_response(j, W)
+        other.get_frequency_response(j, W, True)
+        other.get_truncated_response(j, W)
+        if W <= 256:
+            other.get_impulse_response(j, W)
+    _ = other.supports, other.supports_hz
+
+
 def apply_warmup(bank, num_filts, i, W, warmup):
     for op in warmup or ():
+        if op["m"] == "other":
+            if 2 <= W <= 8192:
+                _other_instance(bank, W)
+            continue
         w = op["w"]
         if w == "same":
             w = W
